@@ -18,6 +18,7 @@ if [ -n "$RACE" ]; then
   export ICESIM_RACE_BIN=/verif/bin/icesim-revert-$c-race
 fi
 set +e
+export ICESIM_REPLAY_DIR=/verif/replays/revert-$c; rm -rf $ICESIM_REPLAY_DIR
 ./bin/icesim-revert-$c check $prop $tier 2>&1 | cut -c1-500 | head -${LINES_OUT:-6}
 git -C /repo worktree remove --force $wt
 rm -f /tmp/revert-$c.mod /tmp/revert-$c.sum bin/icesim-revert-$c bin/icesim-revert-$c-race
